@@ -1,7 +1,7 @@
 (* Property C10 -- theorems only (proved in RG.Types.TypePat / TypePatInst over the model `match_pat_x`, which every run
    executes against typematch.Pattern.MatchIdentical on the pattern trees typematch.Parse really built). *)
 From Coq Require Import List ZArith NArith Bool String.
-From RG.Types Require Import GType XIdentical TypePat TypePatInst.
+From RG.Types Require Import GType XIdentical TypePat TypePatInst TypePatClosed.
 Import ListNotations.
 Local Open Scope string_scope.
 
@@ -19,6 +19,14 @@ Print Assumptions C10_match_complete.
 Theorem C10_match_iff_denotes : forall u p t, ok u t -> (match_pat_x p t = true <-> denotes_x u p t).
 Proof. exact match_iff_denotes_x. Qed.
 Print Assumptions C10_match_iff_denotes.
+
+(* a pattern without variables (builtin types, pointers, slices, arrays, maps, channels, signatures, qualified names)
+   matches precisely the types identical to the type it spells; `plain`: no vendored paths (a vendored copy is treated as
+   the package itself by design) and no instantiated named types (recorded finding below) *)
+Theorem C10_closed_pattern_is_identity : forall u p t,
+  closed p = true -> ok u t -> plain t = true -> match_pat_x p t = go_identicalb (type_of u p) t.
+Proof. exact closed_pattern_is_identity. Qed.
+Print Assumptions C10_closed_pattern_is_identity.
 
 (* ---- recorded findings, as facts of the faithful model *)
 (* known_findings.d/C10.json named-pattern-matches-instantiations: `p.L` matches every instantiation of a generic L *)
@@ -50,6 +58,12 @@ Example c10_hypotheses_satisfiable :
 Proof.
   split; [split; reflexivity|]. apply match_sound_x; [split; reflexivity|vm_compute; reflexivity].
 Qed.
+Example c10_closed_hypotheses_satisfiable :
+  let p := PFunc [PMap (PBuiltin tstr) (PSlice (PNamed "p" "N")); PPointer pint] [PChan 0 (PArrayN 4 pstr)] in
+  let t := T (HSig false) [T HTuple [T HMap [tstr; T HSlice [T (HNamed 1 "p" "N") []]]; T (HAlias 1 "p" "PI") [T HPointer [tint]]];
+                           T HTuple [T (HChan 0) [T (HArray 4) [tstr]]]] in
+  closed p = true /\ ok 1 t /\ plain t = true /\ match_pat_x p t = true /\ go_identicalb (type_of 1 p) t = true.
+Proof. cbn zeta. split; [reflexivity|]. split; [split; reflexivity|]. split; [reflexivity|]. split; vm_compute; reflexivity. Qed.
 Example c10_vendored_named :
   match_pat_x (PNamed "example.com/lib" "T") (T (HNamed 1 "example.com/app/vendor/example.com/lib" "T") []) = true /\
   match_pat_x (PNamed "example.com/lib" "T") (T (HNamed 1 "example.com/other/lib" "T") []) = false.
